@@ -582,8 +582,14 @@ pub fn decode(profile: Profile, bytes: &[u8], max_steps: usize) -> Scenario {
     let mut schedule = vec![];
     let d = &mut *g.d;
     while d.more() && schedule.len() < max_steps {
-        let total = n_pup + n_sinks;
-        let who = if n_pup == 0 { n_pup } else { d.below(total.max(1)) };
+        // about two thirds of the steps go to the sources (a scenario in which the sink leaves at once explores little)
+        let who = if n_pup == 0 {
+            n_pup + d.below(n_sinks)
+        } else if d.below(3) < 2 {
+            d.below(n_pup)
+        } else {
+            n_pup + d.below(n_sinks)
+        };
         if who < n_pup {
             let act = if pullcount {
                 StepPAct::Flush
@@ -591,10 +597,14 @@ pub fn decode(profile: Profile, bytes: &[u8], max_steps: usize) -> Scenario {
                 d.pick(&[
                     StepPAct::Emit,
                     StepPAct::Emit,
+                    StepPAct::Flush,
+                    StepPAct::Emit,
+                    StepPAct::Greet,
+                    StepPAct::Emit,
+                    StepPAct::End,
                     StepPAct::Emit,
                     StepPAct::Flush,
-                    StepPAct::End,
-                    StepPAct::Greet,
+                    StepPAct::Emit,
                     StepPAct::Error,
                 ])
             };
@@ -606,13 +616,27 @@ pub fn decode(profile: Profile, bytes: &[u8], max_steps: usize) -> Scenario {
                 d.pick(&[
                     StepSAct::Attach,
                     StepSAct::Pull,
+                    StepSAct::Pull,
                     StepSAct::Attach,
                     StepSAct::Pull,
                     StepSAct::Terminate,
+                    StepSAct::Pull,
+                    StepSAct::Attach,
+                    StepSAct::Pull,
                     StepSAct::Error,
                 ])
             } else {
-                d.pick(&[StepSAct::Pull, StepSAct::Pull, StepSAct::Pull, StepSAct::Terminate, StepSAct::Error])
+                d.pick(&[
+                    StepSAct::Pull,
+                    StepSAct::Pull,
+                    StepSAct::Pull,
+                    StepSAct::Pull,
+                    StepSAct::Terminate,
+                    StepSAct::Pull,
+                    StepSAct::Pull,
+                    StepSAct::Pull,
+                    StepSAct::Error,
+                ])
             };
             schedule.push(Step::Sink { s, act });
         }
